@@ -269,6 +269,9 @@ def main(argv=None):
             "paths_aborted_by_assume": tot["aborts"], "paths_concretised": tot["unsupported"],
             "paths_cut_by_limit": tot["cut"], "paths_raising": tot["exc_paths"],
             "solver": "z3 %s" % _z3_version(), "solver_queries": tot["solver_queries"],
+            "cvc5_cross_check": {"sampled_obligations_agree": tot.get("cvc5_agree", 0), "disagree": tot.get("cvc5_disagree", 0),
+                                 "inconclusive_or_timeout": tot.get("cvc5_inconclusive", 0),
+                                 "note": "a sample of discharged end-of-path queries per job is exported (SMT-LIB2) and re-decided by cvc5 1.4; a disagreement is a harness error"},
             "solver_time_s": tot["solver_s"], "branch_decisions": tot["branches"],
             "folded_by_interval_or_identity": tot["folds"], "index_realisations": tot["realisations"],
             "functions_encoded": dict(sorted(tot["entered"].items(), key=lambda kv: -kv[1])[:60]),
